@@ -23,7 +23,8 @@ OvKeyAtoms  == TypeSet \cup {"bogusType"}
 OvValAtoms  == {"enforce", "log", "skip", "bogus"}
 VtsAtoms    == {"", "always", "afterCertExpiry", "bogus"}
 GoodStores  == {"ca:s", "sa:s", "tsa:s", "ca:dotted"}
-BadStores   == {"bogus:s", "ca:bad/name", "ca:..", "ca:.", "noColon", "ca:"}
+(* "ca:unicode": a name with letters or digits outside ASCII (the name alphabet is [a-zA-Z0-9_.-]) *)
+BadStores   == {"bogus:s", "ca:bad/name", "ca:..", "ca:.", "noColon", "ca:", "ca:unicode"}
 StoreAtoms  == GoodStores \cup BadStores
 (* identities: idA+ extends idA (overlap), idAs is idA written with the S alias (same DN) *)
 X509Good    == {"idA", "idA+", "idAs", "idB"}
